@@ -14,4 +14,3 @@ INVARIANT LawUndoOne
 INVARIANT LawUnion
 INVARIANT LawIdentity
 INVARIANT LawImplConforms
-INVARIANT LawImplRigid
